@@ -74,6 +74,10 @@ def cases(draw, tier):
     g["mixed"] = draw(st.lists(st.one_of(
         st.integers(-3, n + 2), st.sampled_from([-1, 0, 1, n - 1, n])),
         max_size=12))
+    if draw(st.booleans()):
+        g["regeo"] = [draw(st.sampled_from([100., -3.5, 0., 1e4])),
+                      draw(st.sampled_from([0., 17.25, -250.])),
+                      draw(st.sampled_from([1., 2., 0.5, 3.]))]
     g["outside"] = [[draw(st.integers(0, 7)), draw(st.sampled_from(DIST)),
                      draw(st.sampled_from(DIST)), draw(unit)]
                     for _ in range(draw(st.integers(4, 24)))]
@@ -321,6 +325,52 @@ def oracle(case):
         labels.append("single-row-or-column")
     if max(abs(xll), abs(yll)) / csz > 100:
         labels.append("large-origin")
+    # points exactly on cell edges and on the extent border (and their
+    # floating-point neighbours): either side is acceptable, but the answer
+    # must be -1 or a valid cell whose closed footprint holds the point
+    ii = sorted({0, 1, nc // 2, nc - 1, nc})
+    jj = sorted({0, 1, nr // 2, nr - 1, nr})
+    epts = []
+    for i in ii:
+        for j in jj:
+            x0, y0 = xll + i * csz, yll + j * csz
+            for x in (x0, np.nextafter(x0, -np.inf), np.nextafter(x0, np.inf)):
+                for y in (y0, np.nextafter(y0, -np.inf),
+                          np.nextafter(y0, np.inf), yll + (j + 0.5) * csz):
+                    epts.append([x, y])
+    epts = np.array(epts)
+    ec = g.coord2cell(epts)
+    for (x, y), c in zip(epts, ec):
+        if c == -1:
+            u, v = (x - xll) / csz, (y - yll) / csz
+            if 1e-9 < u < nc - 1e-9 and 1e-9 < v < nr - 1e-9:
+                raise Violation(f"edge point ({x!r}, {y!r}) inside the "
+                                f"extent -> -1; geometry {case_geom(case)}")
+            continue
+        if not 0 <= c < n:
+            raise Violation(f"coord2cell(({x!r}, {y!r})) = {c}: neither -1 "
+                            f"nor a valid cell number (0..{n - 1}); geometry "
+                            f"{case_geom(case)}")
+        r, k = divmod(int(c), nc)
+        u, v = (x - xll) / csz, (y - yll) / csz
+        if not (k - 1e-9 <= u <= k + 1 + 1e-9
+                and nr - 1 - r - 1e-9 <= v <= nr - r + 1e-9):
+            raise Violation(f"edge point ({x!r}, {y!r}) -> cell {c} whose "
+                            f"footprint does not hold it; geometry "
+                            f"{case_geom(case)}")
+    # the georeferencing attributes are public and assignable: a grid that
+    # has been used, and a clone of it, follow their new geometry
+    if "regeo" in case:
+        for target in (g, g.clone()):
+            target.xllcorner = np.float64(case["regeo"][0] * csz)
+            target.yllcorner = np.float64(case["regeo"][1] * csz)
+            target.cellsize = np.float64(case["regeo"][2] * csz)
+            case2 = dict(case, xll=case["regeo"][0] * csz,
+                         yll=case["regeo"][1] * csz,
+                         csz=case["regeo"][2] * csz)
+            check_cells(target, case2, case["cells"])
+            check_mixed(target, case2, case.get("mixed", []))
+        labels.append("geometry-reassigned")
     return {"nt": nt, "labels": sorted(set(labels))}
 
 
